@@ -15,7 +15,10 @@ PY = os.environ.get("BARRIL_PY", "/venv/bin/python")
 
 GLOBAL_ASSUMPTIONS = [
     "A1 machine floats are treated as mathematical reals (C12 adds NaN/±inf flags); rounding is not modelled",
-    "A3 the Python semantics implemented by pyvc (evaluation order, operator dispatch, attribute lookup, exceptions) are assumed faithful; differential self-test compares the interpreter with CPython on concrete inputs",
+    "A3 the Python semantics implemented by pyvc (evaluation order, operator dispatch, attribute lookup, exceptions, dict views, in-place operators, class-level objects) are assumed faithful; anything the interpreter does not model - an unknown builtin method, a field outside the contracts' object schemas, an unmodelled library call - makes the path undecided (out of subset), never a Python exception and never a verdict; refutations are replayed natively on the real code",
+    "A5 numpy: elementwise arithmetic and comparisons on 1-d arrays, length-1 broadcasting, ValueError for other length mismatches, new arrays as results, in-place operators update the array; A10 oop_ext Callback / Singleton / interface decorators as modelled in pyvc/callbacks.py and pyvc/builtins.py",
+    "A15 math.pow is the real power function: uninterpreted, with CPython's domain errors and ground instances of its laws over the applications a path makes (contracts/unit_database.power_facts); scale-only pairs of units are those with conv(u,w)(x) = ratio(u,w)*x",
+    "callee closure: the clauses of callee contracts this property's proofs rely on are re-verified in this check and counted (tagged_dependency); other clauses of the same callees are left to the properties they belong to",
     "A4 ast.parse under python3.11 reads the same program CPython 3.12 runs",
     "A9 'for all histories' follows from the per-operation invariant/frame obligations by induction over public calls (meta-step, not machine-checked); one UnitDatabase singleton per history",
     "A13 z3 5.1 is correct (cvc5 1.0 cross-checks z3's unknowns; thorough tier re-checks samples)",
